@@ -187,6 +187,17 @@ runtime:
     image: img/ms
 `
 
+func copyMap(m map[string]string) map[string]string {
+	if m == nil {
+		return nil
+	}
+	c := make(map[string]string, len(m))
+	for k, v := range m {
+		c[k] = v
+	}
+	return c
+}
+
 func cond(t trialsv1beta1.TrialConditionType) trialsv1beta1.TrialCondition {
 	return trialsv1beta1.TrialCondition{Type: t, Status: corev1.ConditionTrue, Reason: string(t)}
 }
@@ -205,7 +216,8 @@ func (c09) Run(input any) kit.Case {
 	cl := fake.NewClientBuilder().WithScheme(s).WithStatusSubresource(&experimentsv1beta1.Experiment{}, &suggestionsv1beta1.Suggestion{}, &trialsv1beta1.Trial{}).WithObjects(cm).Build()
 	var exps []*experimentsv1beta1.Experiment
 	for _, e := range in.Exps {
-		x := &experimentsv1beta1.Experiment{ObjectMeta: metav1.ObjectMeta{Name: e.Name, Namespace: e.NS, Labels: e.Labels}}
+		// a copy of the labels: in.Exps is what the model is given and must not share memory with objects handed to katib code
+		x := &experimentsv1beta1.Experiment{ObjectMeta: metav1.ObjectMeta{Name: e.Name, Namespace: e.NS, Labels: copyMap(e.Labels)}}
 		x.Spec.Objective = &commonv1beta1.ObjectiveSpec{Type: commonv1beta1.ObjectiveTypeMaximize, ObjectiveMetricName: "acc",
 			MetricStrategies: []commonv1beta1.MetricStrategy{{Name: "acc", Value: commonv1beta1.ExtractByMax}}}
 		x.Spec.Algorithm = &commonv1beta1.AlgorithmSpec{AlgorithmName: "random"}
@@ -240,12 +252,15 @@ func (c09) Run(input any) kit.Case {
 			panic(err)
 		}
 	}
-	for _, t := range in.Trials {
+	// the labels every trial is created with, recorded before anything else runs: what the model is given
+	trialLabels := make([]map[string]string, len(in.Trials))
+	for i, t := range in.Trials {
 		e := exps[t.Owner]
 		tr := &trialsv1beta1.Trial{ObjectMeta: metav1.ObjectMeta{Name: t.Name, Namespace: e.Namespace, Labels: util.TrialLabels(e)}}
 		for k, v := range t.ALabel {
 			tr.Labels[k] = v
 		}
+		trialLabels[i] = copyMap(tr.Labels)
 		tr.Spec.Objective = e.Spec.Objective
 		if err := cl.Create(ctx, tr); err != nil {
 			panic(err)
@@ -315,13 +330,10 @@ func (c09) Run(input any) kit.Case {
 		return fmt.Sprintf("Build_sexp %d%%nat %d%%nat %s", nsid.ID(e.NS), vals.ID(e.Name), lab(e.Labels))
 	})
 	tnames := kit.NewIntern()
+	ti := -1
 	trialsC := kit.ListOf(in.Trials, func(t Trial) string {
-		e := exps[t.Owner]
-		l := util.TrialLabels(e)
-		for k, v := range t.ALabel {
-			l[k] = v
-		}
-		return fmt.Sprintf("Build_strial %d%%nat %d%%nat %s %d%%nat %s %s %s", nsid.ID(e.Namespace), tnames.ID(t.Name), lab(l), t.Owner, kit.Bool(t.MU), kit.Bool(t.ES), kit.Bool(t.Obs))
+		ti++
+		return fmt.Sprintf("Build_strial %d%%nat %d%%nat %s %d%%nat %s %s %s", nsid.ID(in.Exps[t.Owner].NS), tnames.ID(t.Name), lab(trialLabels[ti]), t.Owner, kit.Bool(t.MU), kit.Bool(t.ES), kit.Bool(t.Obs))
 	})
 	names := func(ts []*api_pb.Trial) string {
 		var l []string
